@@ -1,4 +1,195 @@
+import ScVerif.Base.Line
 import ScVerif.C07.Core
+/-!
+C07 — the three rim models, with Go slice semantics.
+
+A Go slice is `(array, len, cap)` (offset 0 suffices here); backing arrays live in a heap of cells
+holding `cap` slots.  `append` writes IN PLACE when `len + n ≤ cap` and allocates a new array
+otherwise; `copy` and in-place sort write into the array they are given.  This is enough to express
+both the defects (the pre-fix code wrote into the array / messages reachable from the live `old`
+message) and the fixed code (clone first: every write lands in a cell allocated by the call).
+
+  * parentpb `traitUnion` / `traitRemove` (pkg/trait/parentpb/model.go)
+  * metadatapb `metadataMergeInterceptor` / `mergeTraitMetadata` (pkg/trait/metadatapb/model.go)
+  * enterleavesensorpb `PullEnterLeaveEvents` seed edit (pkg/trait/enterleavesensorpb/model.go)
+-/
+namespace ScVerif.C07.Rim
+open ScVerif.C07
+
+/-- array heap: each cell is the content of one backing array (its length is the capacity) -/
+structure AH where
+  arr : Ref → List String
+  next : Ref
+
+structure Slice where
+  a : Ref
+  len : Nat
+  cap : Nat
+  deriving DecidableEq, Repr
+
+def AH.set (h : AH) (r : Ref) (xs : List String) : AH := { h with arr := fun x => if x = r then xs else h.arr x }
+
+/-- the elements a slice shows -/
+def rd (h : AH) (s : Slice) : List String := (h.arr s.a).take s.len
+
+/-- overwrite positions `i, i+1, …` of a list -/
+def writeAt : List String → Nat → List String → List String
+  | l, _, [] => l
+  | l, i, x :: xs => writeAt (l.set i x) (i + 1) xs
+
+/-- `make([]T, 0, cap)` followed by `append(fresh, xs...)` with `xs.length ≤ cap`: a fresh array -/
+def allocWith (h : AH) (xs : List String) (cap : Nat) : AH × Slice :=
+  ({ arr := fun x => if x = h.next then xs ++ List.replicate (cap - xs.length) "" else h.arr x, next := h.next + 1 },
+    { a := h.next, len := xs.length, cap := max cap xs.length })
+
+/-- `append(s, xs...)` -/
+def appendS (h : AH) (s : Slice) (xs : List String) : AH × Slice :=
+  if s.len + xs.length ≤ s.cap then
+    (h.set s.a (writeAt (h.arr s.a) s.len xs), { s with len := s.len + xs.length })
+  else
+    allocWith h (rd h s ++ xs) (2 * (s.len + xs.length))
+
+/-- `sort.Search(len(has), has[i].Name >= ts)` on a sorted list -/
+def search (l : List String) (t : String) : Nat := (l.takeWhile (· < t)).length
+
+/-- one iteration of traitUnion's loop on the current slice -/
+def unionStep (h : AH) (s : Slice) (t : String) : AH × Slice :=
+  let cur := rd h s
+  let i := search cur t
+  if i = s.len then appendS h s [t]
+  else if cur[i]? = some t then (h, s)
+  else
+    -- has = append(has[:i+1], has[i:]...); has[i] = t
+    let r := appendS h { s with len := i + 1 } (cur.drop i)
+    (r.1.set r.2.a ((r.1.arr r.2.a).set i t), r.2)
+
+def unionLoop (h : AH) (s : Slice) : List String → AH × Slice
+  | [] => (h, s)
+  | t :: ts => let r := unionStep h s t; unionLoop r.1 r.2 ts
+
+/-- parentpb.traitUnion as it is NOW: clone, then the loop -/
+def traitUnion (h : AH) (has : Slice) (more : List String) : AH × Slice :=
+  let r := allocWith h (rd h has) (has.len + more.length)
+  unionLoop r.1 r.2 more
+
+/-- the pre-fix code: the loop ran on the caller's (stored) slice -/
+def traitUnionLegacy (h : AH) (has : Slice) (more : List String) : AH × Slice := unionLoop h has more
+
+/-- one iteration of traitRemove's loop -/
+def removeStep (h : AH) (s : Slice) (t : String) : AH × Slice :=
+  let cur := rd h s
+  let i := search cur t
+  if i = s.len ∨ cur[i]? ≠ some t then (h, s)
+  else
+    -- copy(has[i:], has[i+1:]); has = has[:len-1]
+    (h.set s.a (writeAt (h.arr s.a) i (cur.drop (i + 1))), { s with len := s.len - 1 })
+
+def removeLoop (h : AH) (s : Slice) : List String → AH × Slice
+  | [] => (h, s)
+  | t :: ts => let r := removeStep h s t; removeLoop r.1 r.2 ts
+
+def traitRemove (h : AH) (has : Slice) (remove : List String) : AH × Slice :=
+  let r := allocWith h (rd h has) has.len
+  removeLoop r.1 r.2 remove
+
+def traitRemoveLegacy (h : AH) (has : Slice) (remove : List String) : AH × Slice := removeLoop h has remove
+
+/-! ### metadata: Traits is a slice of pointers to TraitMetadata messages -/
+
+/-- a TraitMetadata message: name and the `more` map (as an association list) -/
+structure TMd where
+  name : String
+  more : List (String × String)
+  deriving DecidableEq, Repr, Inhabited
+
+structure MH where
+  /-- message cells -/
+  msg : Ref → TMd
+  /-- backing arrays of pointer slices -/
+  arr : Ref → List Ref
+  next : Ref
+
+/-- `proto.Merge(dst, src)` on TraitMetadata: name overwritten when set, map entries merged -/
+def mergeTMd (dst src : TMd) : TMd :=
+  { name := if src.name = "" then dst.name else src.name,
+    more := dst.more.filter (fun kv => !(src.more.any (·.1 = kv.1))) ++ src.more }
+
+/-- `mergeTraitMetadata(tmds, tmd)` on a list of pointers: merge INTO the element with the same name, else append -/
+def mergeInto (h : MH) (tmds : List Ref) (tmd : TMd) : MH × List Ref :=
+  match tmds.find? (fun r => (h.msg r).name = tmd.name) with
+  | some r => ({ h with msg := fun x => if x = r then mergeTMd (h.msg r) tmd else h.msg x }, tmds)
+  | none =>
+    -- the new element is (a clone of) the caller's message: a fresh cell
+    ({ h with msg := fun x => if x = h.next then tmd else h.msg x, next := h.next + 1 }, tmds ++ [h.next])
+
+def mergeAll (h : MH) (tmds : List Ref) : List TMd → MH × List Ref
+  | [] => (h, tmds)
+  | t :: ts => let r := mergeInto h tmds t; mergeAll r.1 r.2 ts
+
+/-- deep copy of the old Traits: one fresh cell per element -/
+def cloneAll (h : MH) : List Ref → MH × List Ref
+  | [] => (h, [])
+  | r :: rs =>
+    let h1 : MH := { h with msg := fun x => if x = h.next then h.msg r else h.msg x, next := h.next + 1 }
+    let rest := cloneAll h1 rs
+    (rest.1, h.next :: rest.2)
+
+/-- the traits part of `metadataMergeInterceptor` as it is NOW: clone old.Traits, then merge the update's traits -/
+def mergeTraits (h : MH) (oldTraits : List Ref) (upd : List TMd) : MH × List Ref :=
+  let c := cloneAll h oldTraits
+  mergeAll c.1 c.2 upd
+
+/-- the pre-fix code merged into old.Traits' elements themselves -/
+def mergeTraitsLegacy (h : MH) (oldTraits : List Ref) (upd : List TMd) : MH × List Ref := mergeAll h oldTraits upd
+
+/-! ### enter/leave: the seed edit -/
+
+/-- an EnterLeaveEvent reduced to what the edit touches -/
+structure ELE where
+  direction : Nat
+  occupant : Option String
+  enterTotal : Nat
+  deriving DecidableEq, Repr, Inhabited
+
+/-- `PullEnterLeaveEvents` on the seed as it is NOW: clone, then clear occupant and direction.
+Returns the heap and the reference sent to the subscriber. -/
+def seedEdit (h : Heap ELE) (next : Ref) (seed : Ref) : Heap ELE × Ref :=
+  (h.set next { h seed with direction := 0, occupant := none }, next)
+
+/-- the pre-fix code edited the seed it was handed (with a nil read mask: the stored message) -/
+def seedEditLegacy (h : Heap ELE) (_next : Ref) (seed : Ref) : Heap ELE × Ref :=
+  (h.set seed { h seed with direction := 0, occupant := none }, seed)
+
+/-! ### driver ops (K2 tie of traitUnion / traitRemove with the real functions) -/
+
+def parseNames (s : String) : List String := if s = "-" then [] else s.splitOn ","
+
+def showNames (l : List String) : String := if l.isEmpty then "-" else ",".intercalate l
+
+/-- `rim union|remove <has names> <extra capacity> <names>`: answers `result|array-of-has-after`
+where the second part is the caller's backing array seen through its full capacity (nil slots `_`). -/
+def handleRim (toks : List String) : String :=
+  match toks with
+  | [op, has, extra, names] =>
+    match extra.toNat? with
+    | none => "!bad-op"
+    | some e =>
+      let hs := parseNames has
+      let h0 : AH := { arr := fun _ => [], next := 0 }
+      let (h1, s) := allocWith h0 hs (hs.length + e)
+      let run := if op = "union" then some (traitUnion h1 s (parseNames names))
+        else if op = "remove" then some (traitRemove h1 s (parseNames names))
+        else if op = "union-legacy" then some (traitUnionLegacy h1 s (parseNames names))
+        else if op = "remove-legacy" then some (traitRemoveLegacy h1 s (parseNames names))
+        else none
+      match run with
+      | none => "!bad-op"
+      | some (h2, r) =>
+        showNames (rd h2 r) ++ "|" ++ ",".intercalate ((h2.arr s.a).map fun x => if x = "" then "_" else x)
+  | _ => "!bad-op"
+
+end ScVerif.C07.Rim
+
 namespace ScVerif.C07
-def handleRim (_ : List String) : String := "!bad-op"
+def handleRim := Rim.handleRim
 end ScVerif.C07
